@@ -2,10 +2,9 @@
 
 spec/Pll.tla <-> core/sync/adjustments/pll.go (through timebase.SystemClock).
   1. TLC decides the property section on the specification (small scope,
-     exhaustive): with the repaired switches on the whole input domain, and with
-     the switches as the code is written on the domain without MinInt64 offsets
-     and saturated clock advances (thorough: also the two expected
-     counterexamples outside that domain).
+     exhaustive) on the whole input domain incl. MinInt64 offsets and saturated
+     clock advances; as a self-test it must find the two counterexamples when
+     the switches are set to the behaviour before the repairs.
   2. TLC generates update histories (exhaustive short ones through the history
      variable, longer random walks with -simulate), each with the expected
      mode / call per update.
@@ -137,19 +136,14 @@ def run(ctx):
     q = ctx.quick
     # ---- 1. design level
     r = ctx.tlc("PllMC", "Pll_exh.cfg" if q else "Pll_deep.cfg", timeout=300 if q else 1500, workers=8)
-    ctx.log("TLC property section, repaired switches, whole domain: %d distinct / %d generated (%.0fs)"
+    ctx.log("TLC property section, whole domain: %d distinct / %d generated (%.0fs)"
             % (r["distinct"], r["generated"], r["wall_s"]))
-    r = ctx.tlc("PllMC", "Pll_code.cfg" if q else "Pll_codedeep.cfg", timeout=300 if q else 1500, workers=8)
-    ctx.log("TLC property section, code as written, domain without MinInt64 / saturated advance: %d distinct / %d generated (%.0fs)"
-            % (r["distinct"], r["generated"], r["wall_s"]))
-    if not q:
-        for cfg, what in (("Pll_cex1.cfg", "Step(Inv(Inv(MinInt64)))"), ("Pll_cex2.cfg", "Duration(ceil(saturated dt))")):
-            r = ctx.tlc("PllMC", cfg, timeout=300, workers=4, allow_violation=True, tag="expected-cex:" + cfg)
-            if r["violated"]:
-                ctx.notes.append("specification (switches as the code is written) predicts a violation through %s: %s"
-                                 % (what, r["violated"]))
-            else:
-                ctx.notes.append("specification no longer predicts a violation through %s" % what)
+    # spec self-test: with the switches of the behaviour before the repairs TLC
+    # must find the two corner cases (a property section that cannot fail proves nothing)
+    for cfg, what in (("Pll_cex1.cfg", "Step(Inv(Inv(MinInt64)))"), ("Pll_cex2.cfg", "Duration(ceil(saturated dt))")):
+        r = ctx.tlc("PllMC", cfg, timeout=300, workers=4, allow_violation=True, tag="selftest:" + cfg)
+        if r["violated"] != "C19Step":
+            raise vlib.Inconclusive("spec self-test: TLC no longer finds the violation through %s (%s)" % (what, r["violated"]))
     # ---- 2. spec -> code: histories with expectations
     g = ctx.tlc("PllMC", "Pll_gen.cfg" if q else "Pll_gendeep.cfg", workers=4, timeout=900, tag="gen")
     exh_cases = ctx.emitted(g["out"])
